@@ -16,7 +16,8 @@ import (
 	"go.nanomsg.org/mangos/v3/vz/vsched"
 )
 
-const survTime = time.Second
+// survTime is the survey time of the scenario being run (0 = surveys never expire).
+var survTime = time.Second
 
 func init() {
 	vexplore.Register("C07", func(tier string) []*vexplore.Scenario {
@@ -29,6 +30,8 @@ func init() {
 				NeedCounters: []string{"response-delivered", "stale-discarded", "foreign-to-other-ctx", "expired-protostate", "canceled-by-new-survey", "broadcast-complete", "late-response-discarded"}},
 			{Name: "surveyor-sched-expiry-vs-response", Mode: "sched", Bound: b, Reset: kit.ResetGlobals, Cfg: vsched.Config{EarlyTimers: true}, Body: schedExpiry},
 			{Name: "surveyor-sched-newsurvey-vs-response", Mode: "sched", Bound: b, Reset: kit.ResetGlobals, Body: schedNewSurvey},
+			{Name: fmt.Sprintf("surveyor-unlimited-survey-time-hist-D%d", d-1), Mode: "hist", Reset: kit.ResetGlobals, Body: func() { survTime = 0; defer func() { survTime = time.Second }(); hist(d - 1) },
+				NeedCounters: []string{"canceled-by-new-survey", "stale-discarded"}},
 			{Name: "surveyor-slow-respondent-survey-sequence", Mode: "enum", Reset: kit.ResetGlobals, Body: slowRespondent, NeedCounters: []string{"queued-surveys-intact"}},
 			{Name: "surveyor-shared-message-two-contexts", Mode: "sched", Bound: b, Reset: kit.ResetGlobals, Body: schedSharedMessage},
 			{Name: "xsurveyor-hist", Mode: "hist", Reset: kit.ResetGlobals, Body: func() { rawHist(4) }},
@@ -72,6 +75,9 @@ type world struct {
 	n     int
 }
 
+// setupWriteQ, when positive, is the WriteQLen set before the respondents connect.
+var setupWriteQ int
+
 func setup() *world {
 	w := &world{}
 	s, err := surveyor.NewSocket()
@@ -81,6 +87,11 @@ func setup() *world {
 	w.sock = s
 	if err := s.SetOption(mangos.OptionSurveyTime, survTime); err != nil {
 		kit.Failf("setup", "SurveyTime: %s", kit.ErrName(err))
+	}
+	if setupWriteQ > 0 {
+		if err := s.SetOption(mangos.OptionWriteQLen, setupWriteQ); err != nil {
+			kit.Failf("setup", "WriteQLen: %s", kit.ErrName(err))
+		}
 	}
 	ep := vt.Get("surv")
 	if err := s.Listen("vt://surv"); err != nil {
@@ -213,6 +224,9 @@ func (w *world) doSurvey(m *mctx) {
 	m.cur = id
 	m.active = true
 	m.expiry = kit.Now() + survTime
+	if survTime == 0 {
+		m.expiry = 1 << 62 // never
+	}
 	m.queue = nil
 }
 
@@ -378,10 +392,17 @@ func schedNewSurvey() {
 // survey under its own id with its own body (a queued survey is not rewritten by a later one), and
 // an answer to an earlier id is not delivered as an answer to the current survey.
 func slowRespondent() {
+	setupWriteQ = kit.ChooseFree(2) // 0: default queue (holds everything), 1: a queue of one survey
+	defer func() { setupWriteQ = 0 }()
+	short := setupWriteQ == 1
 	w := setup()
 	who := kit.ChooseFree(2)
 	n := 2 + kit.ChooseFree(3)
 	m := w.ctxs[who]
+	if kit.ChooseFree(2) == 1 {
+		// the slow respondent is the other connection (the library visits them in some order)
+		w.pipes[0], w.pipes[1] = w.pipes[1], w.pipes[0]
+	}
 	w.pipes[0].Hold(true)
 	for i := 0; i < n; i++ {
 		body := fmt.Sprintf("survey-%d", i)
@@ -396,14 +417,18 @@ func slowRespondent() {
 	kit.Quiesce()
 	wire := w.newWire()
 	if len(wire[1]) != n {
-		kit.Failf("broadcast-incomplete", "the quick respondent saw %d of %d surveys", len(wire[1]), n)
+		kit.Failf("broadcast-incomplete", "one respondent is slow (its queue %s); the quick respondent saw %d of %d surveys", map[bool]string{false: "holds far more", true: "of one survey is full"}[short], len(wire[1]), n)
 	}
-	if len(wire[0]) != n {
+	if !short && len(wire[0]) != n {
 		kit.Failf("broadcast-incomplete", "the slow respondent was given %d of %d surveys once it took them (the queue holds far more)", len(wire[0]), n)
 	}
+	if short && len(wire[0]) == 0 {
+		kit.Failf("broadcast-incomplete", "the slow respondent was given none of %d surveys (its queue holds one)", n)
+	}
 	ids := map[uint32]bool{}
+	quick := map[string][]byte{}
 	for i := 0; i < n; i++ {
-		q, sl := wire[1][i].Data, wire[0][i].Data
+		q := wire[1][i].Data
 		if string(q[4:]) != fmt.Sprintf("survey-%d", i) {
 			kit.Failf("survey-body", "quick respondent, survey %d: body %q", i, q[4:])
 		}
@@ -412,8 +437,12 @@ func slowRespondent() {
 			kit.Failf("survey-id-reused", "survey %d went out under an id used before (%08x)", i, id)
 		}
 		ids[id] = true
-		if !bytes.Equal(q, sl) {
-			kit.Failf("queued-survey-rewritten", "%s: survey %d reached the quick respondent as %x and, after waiting in the queue, the slow one as %x", m.name, i, q, sl)
+		quick[string(q[4:])] = q
+	}
+	for _, sm := range wire[0] {
+		sl := sm.Data
+		if q := quick[string(sl[4:])]; !bytes.Equal(q, sl) {
+			kit.Failf("queued-survey-rewritten", "%s: survey %q reached the quick respondent as %x and, after waiting in the queue, the slow one as %x", m.name, sl[4:], q, sl)
 		}
 	}
 	// an answer to the first survey is stale now; an answer to the last one is delivered
@@ -430,7 +459,7 @@ func slowRespondent() {
 		kit.Failf("stale-response-delivered", "%s: an answer to survey 0 and one to the current survey %d arrived: Recv done=%v %s %q", m.name, n-1, rc.Done(), kit.ErrName(rc.Err), rc.Val)
 	}
 	kit.Count("queued-surveys-intact")
-	kit.Observe("%s n=%d", m.name, n)
+	kit.Observe("%s n=%d short=%v", m.name, n, short)
 }
 
 // schedSharedMessage: the application sends one message, cloned, as a survey on two contexts
